@@ -311,3 +311,27 @@ def coq_table(tab):
     if not tab:
         return "(@nil (list bool))"
     return "[" + "; ".join("[" + "; ".join("true" if v else "false" for v in row) + "]" for row in tab) + "]"
+
+
+# ---------------------------------------------------------------- shape-preserving edits
+def scramble(tree, history):
+    """Edits of the kind the samplers and the trace perform that keep the SHAPE of the tree but change its internal
+    bookkeeping (child order, node ids, graph indices): prune a subtree and graft it back where it was, relabel, round-trip
+    through the dictionary form.  history: list of ('regraft', k) | ('relabel',) | ('dict',); returns the edited tree."""
+    from phyclone.tree import Tree
+
+    for op in history:
+        if op[0] == "regraft":
+            names = sorted(tree.nodes)
+            if not names:
+                continue
+            node = names[op[1] % len(names)]
+            parent = tree.get_parent(node)
+            sub = tree.get_subtree(node)
+            tree.remove_subtree(sub)
+            tree.add_subtree(sub, parent=None if parent == "root" else parent)
+        elif op[0] == "relabel":
+            tree.relabel_nodes()
+        elif op[0] == "dict":
+            tree = Tree.from_dict(tree.to_dict())
+    return tree
